@@ -380,6 +380,11 @@ def run(ctx):
             case["precomputed"] = rng.sample(worlds, rng.randint(0, len(worlds)))
             rest = [w for w in worlds if w not in case["precomputed"]]
             case["lazy"] = rng.sample(rest, min(len(rest), 2))
+        if kind == "custom" and rng.random() < 0.3:
+            # a large rank table (64 worlds), with rank-0 worlds, which a custom object cannot recompute
+            n = case["n"] = 6
+            worlds = lean_order_worlds(n)
+            case["queries"] = [[i + 1] + list(core.gen_cond(rng, n, 2, 0.05)) for i in range(4)]
         if kind == "custom":
             case["ranks"] = [rng.randint(0, 5) for _ in worlds]
             case["precomputed"] = []
